@@ -16,7 +16,13 @@ Second layer (coq/Goal/StopModel.v, extracted to bin/stopq): the control flow th
     against the extracted check_stop / sec_check_stop.  Predicate: a stop test that answers true (isolate/approximate goal; no
     exit request, a phase set) on a state with an uncomputed root that is not OUT is a violation; any other difference is a
     broken correspondence.
-  * the witness of C02_std_silent_cap_refuted is re-run on the real solver (-W 150) and must still leave through the silent branch."""
+  * the precision-cap branch of mps_standard_mpsolve (step == 8 ==, "Reached the input precision") exists in two transcriptions
+    (c_fixed = false: nothing recorded, the code before /repo commit 6608fee8; c_fixed = true: over_max recorded, the code since).
+    Which one replays the traces is read off the snapshot's unisolve/main.c (cap_branch_repaired); the real runs then confirm it
+    (returned over_max compared with the model's on every trace).
+  * the witness of C02_std_silent_cap_refuted (-W 150) is re-run on the real solver: on a tree without the repair it must still
+    leave through the silent branch (and is then a violation of C02: CLUSTERED root, no over_max); on a repaired tree it must leave
+    through the same branch WITH over_max reported (C02_std_fixed_not_silent), which is not a finding."""
 import os, re, json, collections, math
 from fractions import Fraction as Fr
 import vf, solve as S, polygen as G, e2e
@@ -328,6 +334,21 @@ def parse_mod(ev, prec_out, stats):
     return {"v": v, "track": track, "inphase": inph, "cls": cls, "before": before, "w": w, "after": after}
 
 
+def cap_branch_repaired(snap):
+    """Does the `else` branch of step == 8 == of mps_standard_mpsolve ("Reached the input precision": the MP loop ended not
+    computed and without over_max) record over_max?  True: the tree carries /repo commit 6608fee8 (fixes/C02_silent_precision_cap.patch),
+    the transcription is std_run with c_fixed = true; False: it does not, c_fixed = false; None: the branch was not found in the text."""
+    try: t = open(os.path.join(snap, "src", "libmps", "unisolve", "main.c")).read()
+    except OSError: return None
+    t = re.sub(r"/\*.*?\*/", " ", t, flags=re.S); t = re.sub(r"//[^\n]*", " ", t)
+    m = re.search(r'else\s*\{([^{}]*"Reached the input precision"[^{}]*)\}', t)
+    if not m: return None
+    return re.search(r"\bs\s*->\s*over_max\s*=\s*(true|1)\s*;", m.group(1)) is not None
+
+
+FIXED = [False]       # which transcription of the precision-cap branch replays the classic driver's traces (set in run())
+
+
 def _fmt_cls(cls): return "%d %s" % (len(cls), " ".join("%d %d %s" % (cn, len(m), " ".join(map(str, m))) if m else "%d 0" % cn for cn, m in cls))
 
 
@@ -336,7 +357,7 @@ def std_line(events, stats):
     if not events or not events[0].startswith("STD_BEGIN"): return None
     b = events[0].split()
     goal = "iac"[int(b[1])]; prec_out = int(b[10])
-    cfg = "D %s %s %s %s %s %s %s %s %s 0" % (goal, b[2], b[3], b[4], b[5], b[6], b[7], b[8], b[9])
+    cfg = "D %s %s %s %s %s %s %s %s %s %d" % (goal, b[2], b[3], b[4], b[5], b[6], b[7], b[8], b[9], 1 if FIXED[0] else 0)
     evs = []; stops = []; mlines = []; ilines = []; obs = {"copy": None, "end": None, "incl": None, "pending_stop": None, "same_operands": None}
     last_inphase_m = None; xs_done = False; first_phase = None; rounds = None; imp = None; bad = []
     def need_xs(ncl):
@@ -593,7 +614,7 @@ def trace_tie(ctx, recs):
         if t[0] != "OK":
             broken.append(("driver:event order not accepted by std_run (%s)" % o[:40], rec, line[:400])); exits["rejected"] += 1; continue
         ex, over, comp, mpwp, stops, roots = t[1], t[2], t[3], t[4], t[5], t[6]
-        exits[ex] += 1
+        exits["precision-cap:over_max-reported" if (ex == "silent" and over == "1") else ex] += 1
         if obs["same_operands"] is not None: sameop["driver mmodify has msolve's last operands" if obs["same_operands"] else "driver mmodify operands differ from msolve's last"] += 1
         ostops = "".join(reversed(obs["stops"])) or "-"
         if stops != ostops: broken.append(("driver:stop test results %s, model %s" % (ostops, stops), rec, line[:400]))
@@ -606,7 +627,7 @@ def trace_tie(ctx, recs):
             if ex in ("resume", "newton", "checkdata", "inclusion"): broken.append(("driver:model says error exit %s but roots were copied" % ex, rec, line[:400]))
         elif ex not in ("resume", "newton", "checkdata", "inclusion"):
             broken.append(("driver:model says exit %s but mps_copy_roots was not reached" % ex, rec, line[:400]))
-        rec["silent"] = (ex == "silent"); rec["exit"] = ex
+        rec["silent"] = (ex == "silent" and over == "0"); rec["exit"] = ex; rec["model_over"] = over
     nm = 0
     for (rec, line, after), o in zip(ml, mouts):
         t = o.split(); nm += 1
@@ -645,6 +666,16 @@ def run(ctx):
     BUDGET[0] = ctx.pick(6e8, 3e10)
     env = ctx.san_env()
     rng = ctx.rng
+    # --- which transcription of the precision-cap branch (== 8 ==) describes this tree
+    cap_text = cap_branch_repaired(ctx.snap("san"))
+    cap_how = "text of unisolve/main.c in the snapshot"
+    if cap_text is None:
+        # the branch is not recognisable in the text: decide by behaviour (one run of the -W 150 witness; the traces are compared anyway)
+        pr = run_traced(binary, [({"name": "probe", "cls": "probe", "text": SILENT_TEXT}, SILENT_OPTS)], os.path.join(ctx.scratch, "probe"), env, 60, 1)[0]["res"]
+        cap_text = (pr.kind == "ok" and pr.meta.get("over_max") == 1)
+        cap_how = "behaviour of the -W 150 witness (branch not recognised in the text of unisolve/main.c)"
+    FIXED[0] = bool(cap_text)
+    ctx.log("precision-cap branch of mps_standard_mpsolve: %s (%s)" % ("records over_max (repaired, c_fixed = true)" if FIXED[0] else "records nothing (c_fixed = false)", cap_how))
     # --- tie of the status tables to the header
     names, happ, hcomp = header_tables(ctx.snap("san"))
     tl = ctx.run_model("goalq", "T\n").split()
@@ -786,17 +817,30 @@ def run(ctx):
         ctx.violation("correspondence:control-flow:" + what.split(":")[0], "%d trace replays differ from the transcription of coq/Goal/StopModel.v; first: %s (%s %s) %s"
                       % (len(broken), what, rec["case"]["name"] if rec else "", " ".join(rec["opts"]) if rec else "", detail),
                       {"differences": [b[0] for b in broken[:20]], "text": rec["case"]["text"] if rec else None, "opts": rec["opts"] if rec else None}, no_input=True)
-    # the witness of C02_std_silent_cap_refuted must leave the real driver through the silent branch (else the theorem is stale)
+    # the witness of C02_std_silent_cap_refuted (a statement about c_fixed = false, the code before /repo commit 6608fee8):
+    #   tree without the repair: it must leave the real driver through the silent branch (else the theorem is stale);
+    #   repaired tree: it must leave through the same branch with over_max reported (C02_std_fixed_not_silent) - no finding.
+    trace_cov["cap_branch_transcription"] = "c_fixed=true (over_max recorded, /repo 6608fee8)" if FIXED[0] else "c_fixed=false (nothing recorded)"
+    trace_cov["cap_branch_decided_by"] = cap_how
     if not ctx.replay:
         wit = [rec for rec in recs if rec["case"]["name"] == "witness-silent-precision-cap"]
-        ok_w = bool(wit) and wit[0].get("exit") == "silent" and wit[0]["res"].kind == "ok" and wit[0]["res"].meta.get("over_max") == 0 \
-            and any(o.status == 1 for o in wit[0]["res"].roots)
-        trace_cov["silent_cap_witness_reproduced"] = ok_w
+        w = wit[0] if wit else None
+        through = bool(w) and w.get("exit") == "silent" and w["res"].kind == "ok"
+        reproduced = through and w["res"].meta.get("over_max") == 0 and any(o.status == 1 for o in w["res"].roots)
+        reported = through and w["res"].meta.get("over_max") == 1 and w.get("model_over") == "1"
+        trace_cov["silent_cap_witness_reproduced"] = reproduced
+        trace_cov["silent_cap_witness_reports_over_max"] = reported
         capw = [rec for rec in recs if rec["case"]["name"] == "cap-100-sets-over-max"]
         trace_cov["cap_100_sets_over_max"] = bool(capw) and capw[0]["res"].kind == "ok" and capw[0]["res"].meta.get("over_max") == 1
-        if not ok_w and not ctx.violations:
-            ctx.violation("correspondence:silent-cap-witness", "the witness of C02_std_silent_cap_refuted (-W 150) no longer leaves mps_standard_mpsolve through the silent branch (exit %s): the refutation theorem does not describe this tree"
-                          % (wit[0].get("exit") if wit else None), {"text": SILENT_TEXT, "opts": SILENT_OPTS}, no_input=True)
+        if not (reported if FIXED[0] else reproduced) and not ctx.violations:
+            if FIXED[0]:
+                msg = ("the tree carries the repair of the precision-cap branch, but the witness of C02_std_silent_cap_refuted (-W 150) does not leave mps_standard_mpsolve "
+                       "through that branch with over_max reported (exit %s, over_max %s): C02_std_fixed_not_silent does not describe this tree")
+            else:
+                msg = ("the witness of C02_std_silent_cap_refuted (-W 150) no longer leaves mps_standard_mpsolve through the silent branch (exit %s, over_max %s): "
+                       "the refutation theorem does not describe this tree")
+            ctx.violation("correspondence:silent-cap-witness", msg % (w.get("exit") if w else None, w["res"].meta.get("over_max") if w and w["res"].kind == "ok" else None),
+                          {"text": SILENT_TEXT, "opts": SILENT_OPTS, "c_fixed": FIXED[0]}, no_input=True)
     # --- tables tie verdict (after the search above)
     if not tables_ok:
         if not ctx.violations:
